@@ -18,6 +18,7 @@ sys.path.insert(0, VERIF)
 from vlib import engine  # noqa: E402
 
 E1 = {
+    'C09': 'harness.c09_resolver',
     'C14': 'harness.c14_node',
 }
 E2 = {
